@@ -1,5 +1,5 @@
 /-
-  `proofUndoAdd` is the inverse of the addition step (property C08, level 1), when the
+  `proofUndoAddOld` is the inverse of the addition step (property C08, level 1), when the
   additions destroyed no empty root (`ToDestroy = ∅`) and the forest before the block was not
   empty.
 
@@ -313,7 +313,7 @@ end ctx
 
 /-! ### the re-encoding for the previous number of rows -/
 
-/-- the last position-moving stage of `proofUndoAdd`: positions that exist in the previous forest
+/-- the last position-moving stage of `proofUndoAddOld`: positions that exist in the previous forest
 are re-encoded for its number of rows -/
 theorem remapBack_enc {n a : Nat} (hN : n + a ≤ 2 ^ 63) (L : List (Pos × H))
     (hL : ∀ x ∈ L, Valid (forestRows n) x.1) :
@@ -346,13 +346,13 @@ theorem remapBack_enc {n a : Nat} (hN : n + a ≤ 2 ^ 63) (L : List (Pos × H))
       exact BitVec.lt_irrefl _
     rw [if_neg hc, he]
 
-/-! ### `proofUndoAdd` -/
+/-! ### `proofUndoAddOld` -/
 
 /-- the cached leaves that are not additions, with their positions, by position -/
 def keptOld (F : Forest H) (adds C' : List H) : List (Pos × H) :=
   (sortedPairs (F.addMany adds) C').filter (fun z => decide (z.2 ∉ adds))
 
-/-- **`proofUndoAdd` is the inverse of the addition step.**  `F`: the forest after the block's
+/-- **`proofUndoAddOld` is the inverse of the addition step.**  `F`: the forest after the block's
 deletions (not empty); the additions destroy no empty root (`DestroySpec … []`, i.e. `ToDestroy =
 ∅`); the cached proof is the canonical proof in `F.addMany adds` of a duplicate-free list `C'`
 (any order).  The result is the canonical proof in `F` of the leaves of `C'` that are not
@@ -366,7 +366,7 @@ theorem proofUndoAdd_canonical {F : Forest H} {adds : List H} (cr : CR H)
     (hcG : (F.addMany adds).canon C' = some (tgG, hsG)) :
     ∃ K tgK hsK, K.Perm (C'.filter (fun x => decide (x ∉ adds))) ∧
       F.canon K = some (tgK, hsK) ∧ tgK.Pairwise Sorted.PLt ∧
-      proofUndoAdd ⟨tgG.map (E (F.addMany adds).rows), hsG⟩ (BitVec.ofNat 64 adds.length)
+      proofUndoAddOld ⟨tgG.map (E (F.addMany adds).rows), hsG⟩ (BitVec.ofNat 64 adds.length)
           (BitVec.ofNat 64 (F.addMany adds).numLeaves) C' [] =
         .ok (⟨tgK.map (E F.rows), hsK⟩, K) := by
   have hn : F.numLeaves ≤ 2 ^ 63 := by omega
@@ -421,7 +421,7 @@ theorem proofUndoAdd_canonical {F : Forest H} {adds : List H} (cr : CR H)
   have hTRG : TreeRows (BitVec.ofNat 64 (F.numLeaves + adds.length)) =
       H8 (forestRows (F.numLeaves + adds.length)) := treeRows_eq' hN
   have hTRF : TreeRows (BitVec.ofNat 64 F.numLeaves) = H8 (forestRows F.numLeaves) := treeRows_eq' hn
-  unfold proofUndoAdd
+  unfold proofUndoAddOld
   rw [hnumG, hR]
   simp only [hsub, hTRG, hTRF, List.foldl_nil, foldl_const]
   -- the abbreviations
